@@ -198,6 +198,14 @@ class CallMixin:
         if ci is not None and not ref.exact and ci.name in getattr(self.registry, "closed_classes", ()):
             # classes declared closed (no user subclasses, stated assumption): dispatch is static
             ref = sv.SRef(ref.e, ci.name, True)
+        if ref.exact and ci is not None and self.cur_contract is not None and attr in self.cur_contract.virtual and self.frame_depth == 0:
+            # template-method hook: the dynamic class of self is some subclass, its override is known by the interface contract only
+            ic = self.registry.find_iface([c.name for c in ci.mro], attr)
+            if ic is None:
+                raise Unsupported(f"virtual method {attr} without interface contract", node)
+            if ic.params or ic.note == "method":
+                return sv.SPy("ibound", (ic, ref))
+            return self.apply_contract(ic, {"self": ref}, path, node)
         if ref.exact and ci is not None:
             fi = self.repo.lookup_method(ci, attr)
             if fi is not None:
